@@ -9,7 +9,7 @@ import re
 import time
 import xml.etree.ElementTree as ET
 
-from . import core, gen, gen_hostile, sanit, shrink
+from . import configs, core, gen, gen_hostile, sanit, shrink
 
 PROP = "C08"
 PROBE = "<math><mfrac><mrow><mi>x</mi><mo>+</mo><mn>12</mn></mrow><msqrt><mi>y</mi></msqrt></mfrac><mo>=</mo><msup><mi>z</mi><mn>2</mn></msup></math>"
@@ -388,6 +388,94 @@ def bulk_shard(spec):
     return st.to_dict()
 
 
+# --- preference sweep: every documented value of every documented preference x a corpus that covers every construct x every getter ------------
+SWEEP_EXTRA = [
+    "<math><mrow><mi>f</mi><mo>(</mo><mi>x</mi><mo>)</mo><mo>=</mo><mrow><mo>{</mo><mtable><mtr><mtd><mn>1</mn></mtd><mtd><mtext>if </mtext><mi>x</mi><mo>&gt;</mo><mn>0</mn></mtd></mtr>"
+    "<mtr><mtd><mo>-</mo><mn>1</mn></mtd><mtd><mtext>otherwise</mtext></mtd></mtr></mtable></mrow></mrow></math>",
+    "<math><mtable columnalign='right center left'><mtr><mtd><mi>x</mi><mo>+</mo><mi>y</mi></mtd><mtd><mo>=</mo></mtd><mtd><mn>5</mn></mtd></mtr>"
+    "<mtr><mtd><mn>2</mn><mi>x</mi><mo>-</mo><mi>y</mi></mtd><mtd><mo>=</mo></mtd><mtd><mn>1</mn></mtd></mtr><mtr><mtd><mi>z</mi></mtd><mtd><mo>=</mo></mtd><mtd><mn>0</mn></mtd></mtr></mtable></math>",
+    "<math><mrow><mo>(</mo><mtable><mtr><mtd><mn>1</mn></mtd><mtd><mn>2</mn></mtd></mtr><mtr><mtd><mn>3</mn></mtd><mtd><mn>4</mn></mtd></mtr></mtable><mo>)</mo></mrow>"
+    "<mo>+</mo><mrow><mo>|</mo><mtable><mtr><mtd><mi>a</mi></mtd><mtd><mi>b</mi></mtd></mtr><mtr><mtd><mi>c</mi></mtd><mtd><mi>d</mi></mtd></mtr></mtable><mo>|</mo></mrow><mo>+</mo>"
+    "<mrow><mo>[</mo><mtable><mtr><mtd><mi>x</mi></mtd></mtr><mtr><mtd><mi>y</mi></mtd></mtr><mtr><mtd><mi>z</mi></mtd></mtr></mtable><mo>]</mo></mrow></math>",
+    "<math><mrow><mo>{</mo><mi>x</mi><mo>|</mo><mi>x</mi><mo>&gt;</mo><mn>0</mn><mo>}</mo></mrow><mo>&#x222A;</mo><mrow><mo>(</mo><mn>2</mn><mo>,</mo><mn>5</mn><mo>]</mo></mrow><mo>&#x2229;</mo>"
+    "<mrow><mo>{</mo><mn>1</mn><mo>,</mo><mn>2</mn><mo>,</mo><mo>&#x2026;</mo><mo>}</mo></mrow><mo>+</mo><mrow><mo>|</mo><mi>x</mi><mo>-</mo><mn>2</mn><mo>|</mo></mrow><mo>+</mo><mrow><mo>|</mo><mi>A</mi><mo>|</mo></mrow></math>",
+    "<math><msup><mi>x</mi><mn>2</mn></msup><mo>+</mo><msup><mi>y</mi><mfrac><mn>1</mn><mn>2</mn></mfrac></msup><mo>+</mo><msup><mi>e</mi><mrow><mo>-</mo><msup><mi>t</mi><mn>2</mn></msup></mrow></msup>"
+    "<mo>+</mo><mroot><mi>x</mi><mn>3</mn></mroot><mo>+</mo><msqrt><mn>2</mn></msqrt><mo>+</mo><msup><mi>sin</mi><mn>2</mn></msup><mi>x</mi><mo>+</mo><msup><mi>tan</mi><mrow><mo>-</mo><mn>1</mn></mrow></msup><mi>x</mi>"
+    "<mo>+</mo><msub><mi>log</mi><mn>2</mn></msub><mi>x</mi><mo>+</mo><mi>ln</mi><mi>x</mi></math>",
+    "<math><mfrac><mn>1</mn><mn>2</mn></mfrac><mo>+</mo><mn>3</mn><mfrac><mn>3</mn><mn>4</mn></mfrac><mo>+</mo><mfrac><mrow><mi>a</mi><mo>+</mo><mi>b</mi></mrow><mfrac><mi>c</mi><mi>d</mi></mfrac></mfrac>"
+    "<mo>+</mo><mn>2</mn><mrow><mo>(</mo><mi>x</mi><mo>+</mo><mn>1</mn><mo>)</mo></mrow><mrow><mo>(</mo><mi>y</mi><mo>)</mo></mrow><mo>+</mo><mi>f</mi><mo>&#x2061;</mo><mrow><mo>(</mo><mi>x</mi><mo>)</mo></mrow>"
+    "<mo>+</mo><msup><mi>f</mi><mo>&#x2032;</mo></msup><mo>+</mo><mover><mi>z</mi><mo>&#xAF;</mo></mover><mo>+</mo><mover><mrow><mi>A</mi><mi>B</mi></mrow><mo>&#x2192;</mo></mover><mo>+</mo><mi>A</mi><mi>B</mi><mo>+</mo><mn>3</mn><mi>x</mi><mi>y</mi></math>",
+    "<math><munderover><mo>&#x2211;</mo><mrow><mi>k</mi><mo>=</mo><mn>1</mn></mrow><mi>n</mi></munderover><msub><mi>a</mi><mi>k</mi></msub><mo>+</mo><msubsup><mo>&#x222B;</mo><mn>0</mn><mn>1</mn></msubsup><mi>f</mi><mi>d</mi><mi>x</mi>"
+    "<mo>+</mo><munder><mi>lim</mi><mrow><mi>x</mi><mo>&#x2192;</mo><mn>0</mn></mrow></munder><mi>g</mi><mo>+</mo><mrow><mo>(</mo><mfrac linethickness='0'><mi>n</mi><mi>k</mi></mfrac><mo>)</mo></mrow>"
+    "<mo>+</mo><msubsup><mi>C</mi><mi>k</mi><mi>n</mi></msubsup><mo>+</mo><mmultiscripts><mi>P</mi><mi>k</mi><none/><mprescripts/><mi>n</mi><none/></mmultiscripts><mo>+</mo><mn>5</mn><mo>!</mo></math>",
+    "<math><msub><mi mathvariant='normal'>H</mi><mn>2</mn></msub><mi mathvariant='normal'>O</mi><mo>+</mo><mi mathvariant='bold'>v</mi><mo>&#xD7;</mo><mi>W</mi><mo>+</mo><mi>&#x3A9;</mi><mo>+</mo><mn>1,234.5</mn><mo>+</mo><mn>0.75</mn>"
+    "<mo>+</mo><menclose notation='box'><mn>57</mn></menclose><mo>+</mo><mn>3</mn><mi intent=':unit'>km</mi><mo>+</mo><mn>XIV</mn><mo>+</mo><mtext>for all </mtext><mi>x</mi></math>",
+]
+
+
+def pref_points():
+    """(name, value) pairs: the values the comment of each prefs.yaml line names, plus the default, plus one wrong-kind value"""
+    pts = []
+    for n, (default, enums) in sorted(configs.prefs_yaml().items()):
+        vals = list(dict.fromkeys(list(enums) + [default]))
+        if default.replace(".", "", 1).replace("-", "", 1).isdigit():
+            vals += ["0", "-50", "400"]
+        for v in vals:
+            pts.append((n, v))
+    return pts
+
+
+def pref_sweep_shard(spec):
+    from . import c15_corpus
+    st = core.Stats()
+    deadline = time.time() + spec["time_budget"]
+    corpus = SWEEP_EXTRA + c15_corpus.FIXED
+    tail = [("get_spoken_text",), ("get_overview_text",), ("get_braille", ""), ("do_navigate_command", "ZoomIn"), ("do_navigate_command", "MoveNext"), ("get_navigation_braille",),
+            ("do_navigate_command", "DescribeCurrent")]
+    seen = set()
+    for name, value, cfg_index in spec["points"]:
+        if time.time() > deadline:
+            st.count("stopped_by_time_budget")
+            break
+        with core.Session(CONFIGS[cfg_index], timeout=30) as sess:
+            ops, owner = [("set_preference", name, value)], [None]
+            for x in corpus:
+                ops.append(("set_mathml", x))
+                owner.append(x)
+                for g_ in tail:
+                    ops.append(g_)
+                    owner.append(x)
+            res = sess.batch(ops, timeout=180)
+            if res is None:
+                if isinstance(sess.last_failure, core.DriverTimeout):
+                    st.inconclusive += 1
+                    st.notes.append("watchdog in preference sweep: %s=%s" % (name, value))
+                    continue
+                # the driver died: find the culprit call by call
+                how = core.describe_exit(sess.last_failure.returncode)
+                st.violations.append(core.violation("abort", "abort | %s | preference sweep | %s" % (how, name), {"cfg": cfg_index, "kind": "prefsweep", "ops": [list(o) for o in ops]},
+                                                    "driver died (%s) in the sweep of %s=%s" % (how, name, value)))
+                continue
+            st.count("preference_points_swept")
+            st.add("preferences_swept", name)
+            st.count("preference_accepted" if res[0]["r"] == "ok" else "preference_" + res[0]["r"])
+            st.nontrivial.add(core.h16("prefsweep|%s|%s|%d" % (name, value, cfg_index)))
+            for op, r, x in zip(ops, res, owner):
+                st.evaluations += 1
+                if r["r"] != "panic":
+                    continue
+                st.count("raw_panics")
+                sig = panic_sig(op[0], r["p"])
+                w = {"cfg": cfg_index, "kind": "prefsweep", "flavour": "native",
+                     "ops": [["set_preference", name, value]] + ([["set_mathml", x]] if x is not None and op[0] != "set_mathml" else []) + [list(op)]}
+                detail = "%s panicked with %s=%r on %s: %s at %s" % (op[0], name, value, (x or "")[:300], r["p"].get("msg", "")[:200], r["p"].get("loc"))
+                if sig in seen:
+                    detail = "(same signature, not minimised)"
+                seen.add(sig)
+                st.violations.append(core.violation("panic", sig, w, detail))
+    return st.to_dict()
+
+
 # --- fixed obligations: uninitialised use, key codes, nesting depth ----------------------------------------------------------------------
 ALL_CALLS = [("get_version",), ("get_spoken_text",), ("get_overview_text",), ("get_braille", ""), ("get_braille", "x"), ("get_navigation_braille",), ("get_navigation_mathml",),
              ("get_navigation_mathml_id",), ("get_braille_position",), ("get_navigation_node_from_braille_position", 0), ("get_navigation_node_from_braille_position", 7),
@@ -623,6 +711,10 @@ def run(tier, seed):
     results = core.run_shards(shard, specs)
     bulk = [{"seed": core.sub_seed(seed, PROP, "bulk", i), "cfg": i % len(CONFIGS), "n": 4000 if tier == "quick" else 150000, "time_budget": 35 if tier == "quick" else 900} for i in range(nsh)]
     results += core.run_shards(bulk_shard, bulk)
+    pts = pref_points()
+    sweep_cfgs = (0, 1) if tier == "quick" else (0, 1, 2, 3, 4, 5, 6, 7)
+    allp = [(n, v, c) for c in sweep_cfgs for (n, v) in pts]
+    results += core.run_shards(pref_sweep_shard, [{"points": allp[i::nsh], "time_budget": 40 if tier == "quick" else 900} for i in range(nsh)])
     tags = ["mrow", "msqrt", "mfrac", "msup", "mstyle", "mfenced", "menclose", "mpadded", "munder", "mtable"]
     fixed = [{"which": "uninit"}] + [{"which": "keys", "lo": lo, "hi": lo + 64} for lo in range(0, 256, 64)] + [{"which": "depth", "tags": tags[i::3], "cfg": i} for i in range(3)]
     results += core.run_shards(fixed_shard, fixed)
